@@ -447,6 +447,18 @@ pub fn run_encoder(plain: &[u8], pre: &[u8], side: &Side, check_stream: bool) ->
     // borrowed pieces then start anywhere, as they do in the middle of a caller's buffer.
     let placed = bytespec::Placed::new(plain, bytespec::Placed::misalign_of(plain));
     let plain = placed.bytes();
+    // For one input in three, another encoder is first fed part of the same input on this
+    // thread and abandoned without `finish` (mid-chunk, possibly holding back an FE):
+    // nothing of it may leak into the encoder under test.
+    if plain.len() % 3 == 0 && !plain.is_empty() && plain.len() <= 8192 {
+        let upto = match bytespec::stuff_positions(plain).first() {
+            Some(p) => p + 1, // ends on the FE of the first FE FD
+            None => (plain.len() + 1) / 2,
+        };
+        let mut abandoned = Encoder::new();
+        abandoned.encode_copy(&plain[..upto]);
+        drop(abandoned);
+    }
     let cuts = bytespec::resolve_cuts(&side.cuts, plain.len(), &plain_interesting(plain));
     let pieces = bytespec::split_at_cuts(plain, &cuts);
     let mut obs = Obs::default();
@@ -603,6 +615,16 @@ pub fn run_decoder(stream: &[u8], side: &Side, check_stream: bool) -> Result<Dec
 pub fn run_decoder_pre(stream: &[u8], pre: &[u8], side: &Side, check_stream: bool) -> Result<DecRun, Fail> {
     let placed = bytespec::Placed::new(stream, bytespec::Placed::misalign_of(stream));
     let stream = placed.bytes();
+    // Likewise a decoder abandoned mid-stream (mid-header or mid-chunk) first.
+    if stream.len() % 3 == 0 && !stream.is_empty() && stream.len() <= 8192 {
+        let upto = match encoded_interesting(stream).get(1) {
+            Some(h) => (h + 1).min(stream.len()), // the first byte of the second header
+            None => (stream.len() + 1) / 2,
+        };
+        let mut abandoned = Decoder::new();
+        let _ = abandoned.decode_copy(&stream[..upto]);
+        drop(abandoned);
+    }
     let cuts = bytespec::resolve_cuts(&side.cuts, stream.len(), &encoded_interesting(stream));
     let pieces = bytespec::split_at_cuts(stream, &cuts);
     let mut obs = Obs::default();
